@@ -132,6 +132,7 @@ def gen_problem(cfg, backward=False):
         P.profile = pn
     else:
         P.profile = '-'
+    P.cfg = cfg  # the effective configuration (profile merged): harnesses must read their options from here
     n = cfg['n']
     P.n = n
     P.backward = backward
@@ -274,6 +275,10 @@ def capacity(P, name, day):
     return CALENDARS[P.cal[name]]()[1](day)
 
 
+def cfg_strict_exceptions(P):
+    return getattr(P, 'any_exception_is_outcome', False)
+
+
 def run_calc(P, w):
     """Runs calc under the symbolic clock.  Returns (schedule | None, exception | None)."""
     with clock_and_dates(P.clock):
@@ -288,8 +293,16 @@ def run_calc(P, w):
             return s, None
         except RecursionError as e:
             return None, e
-        except Exception as e:
+        except RuntimeError as e:
             return None, e
+        except core.EngineError:
+            raise
+        except Exception as e:
+            if cfg_strict_exceptions(P) or is_native():
+                return None, e
+            # an exception type calc never raises on the unchanged tree: either a defect (C14 decides that) or an
+            # operation the symbolic proxies do not model -> degrade this path to a native sample
+            raise core.EngineError(f'{type(e).__name__} inside calc: {e}')
 
 
 # ---------------------------------------------------------------------------
@@ -381,20 +394,22 @@ FWD_QUICK_PROFILES = {
     'n3-plain': dict(PLAIN, n=3, scenarios=[(0, -1), (5, 1)]),
     'n2-milestones': dict(PLAIN, n=2, milestones=True, scenarios=[(0, -1), (4, 0)]),
     'n2-none-values': dict(PLAIN, n=2, est_none=True, spent_none=True, default_estimate=True, scenarios=[(0, -1)]),
-    'n2-resources': dict(PLAIN, n=2, resources=['r', 'q'], calendars=['sparse', 'fraction'], scenarios=[(5, 0)]),
+    'n2-resources': dict(PLAIN, n=2, resources=['r', 'q'], calendars=['sparse', 'fraction'], grid=8, scenarios=[(5, 0)]),
     'n2-unbalanced': dict(PLAIN, n=2, balance=[False], scenarios=[(0, -1), (4, 2)]),
     'n3-summary-values': dict(PLAIN, n=3, summary_values=True, links=False, scenarios=[(2, -1)]),
-    'n2-min-start': dict(PLAIN, n=2, min_start=True, min_start_offsets=[-1, 2], dates_on=1, scenarios=[(1, 0)]),
-    'n2-fixed': dict(PLAIN, n=2, fixed=True, fixed_offsets=[-2, 1], dates_on=0, scenarios=[(1, 0)]),
+    'n2-min-start': dict(PLAIN, n=2, min_start=True, milestones=True, min_start_offsets=[-1, 1, 2], dates_on=1, scenarios=[(1, 0)]),
+    'n2-fixed': dict(PLAIN, n=2, fixed=True, fixed_offsets=[-2, 1], dates_on=0, scenarios=[(1, 0), (0, 2), (2, -1)]),
+    'n3-two-resources': dict(PLAIN, n=3, resources=['r', 'q'], E=10, scenarios=[(0, -1)]),
 }
 
 BWD_QUICK_PROFILES = {
     'n3-plain': dict(PLAIN, n=3, scenarios=[(0, -1), (5, -1)]),
     'n2-milestones': dict(PLAIN, n=2, milestones=True, scenarios=[(0, -1), (4, -1)]),
     'n2-none-values': dict(PLAIN, n=2, est_none=True, spent_none=True, default_estimate=True, scenarios=[(0, -1)]),
-    'n2-resources': dict(PLAIN, n=2, resources=['r', 'q'], calendars=['sparse', 'fraction'], scenarios=[(1, -1), (5, -1)]),
+    'n2-resources': dict(PLAIN, n=2, resources=['r', 'q'], calendars=['sparse', 'fraction'], grid=8, scenarios=[(1, -1), (5, -1)]),
     'n2-unbalanced': dict(PLAIN, n=2, balance=[False], scenarios=[(0, -1), (4, -1)]),
     'n3-summary-values': dict(PLAIN, n=3, summary_values=True, links=False, scenarios=[(2, -1)]),
+    'n3-two-resources': dict(PLAIN, n=3, resources=['r', 'q'], E=10, scenarios=[(0, -1)]),
 }
 
 FULL = {'milestones': True, 'resources': ['r', 'q'], 'calendars': ['default', 'sparse', 'fraction', 'composed'],
